@@ -8,7 +8,12 @@ import (
 	"net/http"
 	"net/http/httptest"
 	"net/url"
+	"context"
+	"net"
+	"runtime"
 	"strconv"
+	"crypto/sha256"
+	"encoding/hex"
 	"strings"
 	"sync"
 
@@ -93,6 +98,16 @@ func insertOracle(doc string) (string, bool) {
 	return buf.String(), true
 }
 
+type smallBufListener struct{ net.Listener }
+
+func (l smallBufListener) Accept() (net.Conn, error) {
+	c, err := l.Listener.Accept()
+	if tc, ok := c.(*net.TCPConn); ok {
+		tc.SetWriteBuffer(16384)
+	}
+	return c, err
+}
+
 func runC20(e *emitter, tier string, seed uint64) {
 	var mu sync.Mutex
 	cases := map[string]*c20Case{}
@@ -125,9 +140,22 @@ func runC20(e *emitter, tier string, seed uint64) {
 	defer upstream.Close()
 	target, _ := url.Parse(upstream.URL)
 	ph := proxy.New(quietLog, "127.0.0.1", 0, target)
+	// small socket buffers on both ends of the proxy->browser connection, so that a response whose body the
+	// browser has not read yet is still held by the proxy (the overlap phase depends on that)
 	front := httptest.NewServer(ph)
 	defer front.Close()
 	client := &http.Client{Transport: &http.Transport{DisableCompression: true}}
+	frontSlow := httptest.NewUnstartedServer(ph)
+	frontSlow.Listener = smallBufListener{frontSlow.Listener}
+	frontSlow.Start()
+	defer frontSlow.Close()
+	clientSlow := &http.Client{Transport: &http.Transport{DisableCompression: true, DialContext: func(ctx context.Context, network, addr string) (net.Conn, error) {
+		c, err := (&net.Dialer{}).DialContext(ctx, network, addr)
+		if tc, ok := c.(*net.TCPConn); ok {
+			tc.SetReadBuffer(16384)
+		}
+		return c, err
+	}}}
 
 	n := 0
 	run := func(c *c20Case) {
@@ -188,7 +216,8 @@ func runC20(e *emitter, tier string, seed uint64) {
 	docs := []string{
 		"", "<html><head></head><body><h1>hi</h1></body></html>", "<!DOCTYPE html><html><body>é 日本 😀</body></html>", "<p>no body tag</p>", "plain text",
 		"<html><body><script>var x = '</body>';</script><p>a</p></body></html>", "<html><body><script src=\"/_templ/reload/script.js\"></script></body></html>",
-		"<html><head><title>t</title></head><frameset><frame></frameset></html>", "<body a=\"1\">x</body><body b=\"2\">y</body>", "<html><body><table><tr><td>1<td>2</table>",
+		"<html><head><title>t</title></head><frameset><frame></frameset></html>", "<html><head><title>body</title></head><body><p>x</p></body></html>",
+		"<!--body--><html><head><script>body</script></head><body>y</body></html>", "<!DOCTYPE body><html><body>z</body></html>", "<html><body>body</body></html>", "<body a=\"1\">x</body><body b=\"2\">y</body>", "<html><body><table><tr><td>1<td>2</table>",
 		"<html><body>&amp;&lt;&nbsp;&copy;</body></html>", "<svg><body></body></svg>", "<html><body><template><body></body></template></body></html>", "\xff\xfe<body>", "<html><body>a\r\nb\rc</body></html>",
 		"<html><body><textarea></body></textarea></body></html>", strings.Repeat("<div>x</div>", 2000), "<html><body>" + strings.Repeat("y", 300000) + "</body></html>",
 	}
@@ -256,6 +285,67 @@ func runC20(e *emitter, tier string, seed uint64) {
 	}
 	for _, en := range []string{"gzip", "br"} {
 		run(mk("", "text/html", en, "", false, docs[2], true)) // truncated compressed stream
+	}
+	// overlapping responses: A's headers are read, then B is fetched completely, then A's body is read. Each must be
+	// what it would be alone (the proxy keeps no state between responses).
+	rounds := 3
+	if tier == "thorough" {
+		rounds = 40
+	}
+	// one P: the proxy's goroutines share one sync.Pool cache, so any pooled object is reused by the very next response
+	prevProcs := runtime.GOMAXPROCS(1)
+	defer runtime.GOMAXPROCS(prevProcs)
+	for i := 0; i < rounds; i++ {
+		for _, en := range []string{"", "gzip"} {
+			docA := "<html><head><title>one</title></head><body>" + strings.Repeat(fmt.Sprintf("<p>A%d</p>", i), 30000) + "</body></html>"
+			docB := "<html><head><title>two</title></head><body>" + strings.Repeat(fmt.Sprintf("<i>B%d</i>", i), 30000) + "</body></html>"
+			ca, cb := mk("", "text/html", en, "", false, docA, false), mk("", "text/html", en, "", false, docB, false)
+			n++
+			pa := fmt.Sprintf("/c/%d", n)
+			n++
+			pb := fmt.Sprintf("/c/%d", n)
+			mu.Lock()
+			cases[pa], cases[pb] = ca, cb
+			mu.Unlock()
+			get := func(path string) (*http.Response, error) {
+				req, _ := http.NewRequest("GET", frontSlow.URL+path, nil)
+				req.Header.Set("Accept-Encoding", "gzip, br, deflate")
+				return clientSlow.Do(req)
+			}
+			ra, errA := get(pa)
+			rb, errB := get(pb)
+			var bodyA, bodyB []byte
+			if errB == nil {
+				bodyB, _ = io.ReadAll(rb.Body)
+				rb.Body.Close()
+			}
+			if errA == nil {
+				bodyA, _ = io.ReadAll(ra.Body)
+				ra.Body.Close()
+			}
+			for _, x := range []struct {
+				c    *c20Case
+				resp *http.Response
+				body []byte
+				err  error
+				tag  string
+			}{{ca, ra, bodyA, errA, "overlap-first"}, {cb, rb, bodyB, errB, "overlap-second"}} {
+				key := fmt.Sprintf("%s %d %s", x.tag, i, en)
+				if x.err != nil {
+					continue
+				}
+				dec, _ := decodeAs(x.resp.Header.Get("Content-Encoding"), x.body)
+				ins, _ := insertOracle(x.c.decoded)
+				// multi-megabyte bodies travel as length + SHA-256 (computed here) instead of hex
+				sum := func(s string) string { h := sha256.Sum256([]byte(s)); return hex.EncodeToString(h[:]) }
+				e.emit(key, "overlap", x.tag, hx(x.c.enc), fmt.Sprint(len(ins)), sum(ins), fmt.Sprint(len(dec)), sum(dec),
+					strconv.Itoa(x.resp.StatusCode), hx(x.resp.Header.Get("Content-Encoding")), hx(x.resp.Header.Get("Content-Length")), fmt.Sprint(len(x.body)))
+			}
+			mu.Lock()
+			delete(cases, pa)
+			delete(cases, pb)
+			mu.Unlock()
+		}
 	}
 	r := &rng{s: seed}
 	nr := 400
